@@ -29,3 +29,13 @@ claim("C19",
       "Symbolic execution of the real shouldProxy/shouldProxyGet/shouldProxyPost over methods and paths with symbolic bytes against an RFC 3986 dot-segment reference normaliser (proxied => documented shape and normalised path still under /linkip/ or /ddns/), and of linkedIPProxy.ServeHTTP over all presence combinations of forged client-IP headers with symbolic values and a symbolic peer address (backend contacted iff documented shape; X-Connecting-Ip is exactly the peer address; CF-Connecting-IP, Forwarded, True-Client-IP, X-Real-IP removed; outbound Host/URL rewritten to the backend).",
       "Trusted: symgo (net/http Header/URL code interpreted from SSA), z3; in the symbolic build ReverseProxy.ServeHTTP is replaced by Rewrite-then-RoundTrip (native replay uses the real ReverseProxy with a recording Transport). Bounds: path = prefix choice + <=7 (quick) / <=10 (thorough) symbolic bytes over {'/', '.', 'a', 's'} + suffix choice; header harness uses 6 concrete paths. Outside the claim: HTTP request-line parsing, percent-decoding, X-Forwarded-* removal by ReverseProxy.",
       "DESIGN.md 3 C19")
+
+claim("C03",
+      "Symbolic execution of the real devicefinder.Default.Find (deviceData extraction per transport, findDevice/deviceFromDB, authenticatedResult/authenticate) against a stub profile database that records how it was asked: all combinations of protocol (incl. DNSCrypt/invalid), userinfo, DoH path, TLS server name, EDNS options, linked-IP flag, database answers and symbolic Auth.Enabled / DoHAuthOnly / password verdict / profile Deleted; the solver must show the channel discipline, the deleted-profile gate and the authentication decision table; the downstream treatment of non-OK results is checked through ratelimitmw (H10b).",
+      "Trusted: symgo, stub profile DB and password hash (bcrypt outside the claim), z3. Identifiers are concrete representatives per channel; extended human-ID parsing and interface-bound servers (dedicated IPs) are not yet encoded; net/http Basic-Auth decoding and TLS SNI extraction outside the claim.",
+      "DESIGN.md 3 C03")
+
+claim("C10",
+      "Symbolic execution of the real access.DefaultProfile.IsBlocked (full-width addresses, symbolic subnets/ASNs) against a reference predicate (blocked net/ASN not overridden by an allowed net/ASN, or a blocked-name rule), and of the whole ratelimitmw.Wrap closure with recorder stubs: every blocked request writes nothing, never reaches the next handler or any limiter and returns nil; every request that nothing rejects reaches the next handler exactly once with its RequestInfo; rate-limit drops are silent and the profile's limiter replaces the global one.",
+      "Trusted: symgo, stubs for the urlfilter blocked-name engines (verdict = symbolic / rule present), device finder, GeoIP and limiters; z3. Bounds: <=1 (quick) / <=2 (thorough) entries per list. 'Not logged, billed, cached, resolved' follows from 'next not called' because all those stages live behind next (dnssvc.NewHandlers order, not re-checked here).",
+      "DESIGN.md 3 C10")
